@@ -252,7 +252,7 @@ class Ctx:
         return d
 
     def tlc(self, module, cfg, name="tlc", workers=None, timeout=600, simulate=None, depth=None,
-            coverage=False, defines=None, heap="8g", dfs=False, count=True, extra=None, seed=None,
+            coverage=False, defines=None, heap="4g", dfs=False, count=True, extra=None, seed=None,
             deadlock=None):
         """run TLC on spec module `module` with config `cfg` (file names inside spec/).
         defines: dict written as extra CONSTANT overrides appended to a copy of the cfg."""
@@ -322,7 +322,7 @@ class Ctx:
         return res
 
     def validate_trace(self, module, cfg, trace_path, name="tlc", timeout=600, trace_file="trace.ndjson",
-                       dfs=False, heap="8g", defines=None):
+                       dfs=False, heap="4g", defines=None):
         """run a Trace_* spec over an ndjson trace.  The trace specs never block: they print
         <<"REJECTED", "<json>">> for each event the specification does not allow and
         <<"ACCEPTED", n>> at the end.  Returns (accepted_events, [rejected json objects])."""
